@@ -282,7 +282,11 @@ func (c *compiler) computeStates() {
 				}
 			}
 
-			state := stateMap.Get(core).(*state)
+			next := c.acceptingState(i, Sym(sym), core)
+			if next == nil {
+				next = stateMap.Get(core).(*state)
+			}
+			state := next
 			if state.sourceState == -1 {
 				state.sourceState = curr.index
 			}
@@ -327,6 +331,18 @@ func (c *compiler) computeStates() {
 	}
 	c.out.FinalStates = finalStates
 	c.out.NumStates = len(c.states)
+}
+
+// acceptingState returns a fresh state for the transition from the initial state of an input on
+// its own nonterminal. This state accepts the input (it gets the transition on EOI), so it cannot
+// be shared with a state that has the same core but is reached in another context.
+func (c *compiler) acceptingState(from int, sym Sym, core []int) *state {
+	if from >= len(c.grammar.Inputs) || sym != c.grammar.Inputs[from].Nonterminal {
+		return nil
+	}
+	s := &state{index: len(c.states), symbol: sym, sourceState: -1, core: slices.Clone(core)}
+	c.states = append(c.states, s)
+	return s
 }
 
 func (c *compiler) checkLR0() {
